@@ -2,6 +2,7 @@ package main
 
 import (
 	"fmt"
+	"go/ast"
 	"go/types"
 	"sort"
 	"strings"
@@ -150,6 +151,9 @@ func runC01(w *World, r *Report) {
 			}
 			if _, ok := codes.SwitchSideCtors[fi.Key]; ok {
 				continue
+			}
+			if decodesIntoResult(w, fi, k) {
+				continue // a parse helper: the header of what it returns comes from the wire, not from the library
 			}
 			r.Fail(VUnmapped, "type", fi.Key, "", w.Pos(fi.Decl.Pos()), "constructor of a message kind has no row in spec/codes.json (ctor_ofp_type)")
 		}
@@ -396,4 +400,33 @@ func declaredTypeAt(root types.Type, path string) types.Type {
 		t = ft
 	}
 	return t
+}
+
+// decodesIntoResult: fi takes a byte slice and hands it to the decoder of the kind it returns.
+func decodesIntoResult(w *World, fi *FuncInfo, k *Kind) bool {
+	if k.Unmarshal == nil || fi.Decl.Body == nil {
+		return false
+	}
+	info := fi.Pkg.TypesInfo
+	params := map[types.Object]bool{}
+	sig := fi.Obj.Type().(*types.Signature)
+	for i := 0; i < sig.Params().Len(); i++ {
+		if isByteSlice(sig.Params().At(i).Type()) {
+			params[sig.Params().At(i)] = true
+		}
+	}
+	found := false
+	ast.Inspect(fi.Decl.Body, func(n ast.Node) bool {
+		c, ok := n.(*ast.CallExpr)
+		if !ok || len(c.Args) != 1 {
+			return true
+		}
+		if fn := w.calleeOf(info, c); fn != nil && fn == k.Unmarshal {
+			if id, ok := unparen(c.Args[0]).(*ast.Ident); ok && params[info.Uses[id]] {
+				found = true
+			}
+		}
+		return true
+	})
+	return found
 }
